@@ -887,6 +887,33 @@ func (f *frame) call(in ssa.Instruction, c *ssa.CallCommon, rc Ref, typ types.Ty
 				callee = fn
 			}
 		}
+		// a function value selected by a condition (find := a; if c { find = b }; find(x)): the call
+		// of each alternative under its condition.  Only for alternatives that are not expanded
+		// (an expanded callee narrows the reach condition of the rest of the block).
+		if callee == nil && fv.Op == "ite" {
+			okAlt := true
+			var alts []*ssa.Function
+			for leaf := range u.Leaves(fv) {
+				fn := f.g.fnByName[leaf.Aux]
+				if leaf.Op != "func" || fn == nil || fn.Blocks == nil || f.canInline(fn) {
+					okAlt = false
+				} else {
+					alts = append(alts, fn)
+				}
+			}
+			if okAlt && len(alts) >= 2 && len(alts) <= 4 {
+				var build func(e *E, cond Ref) *E
+				build = func(e *E, cond Ref) *E {
+					if e.Op == "ite" {
+						return u.ITE(e.B, build(e.Args[0], u.bdd.And(cond, e.B)), build(e.Args[1], u.bdd.And(cond, u.bdd.Not(e.B))))
+					}
+					cc := *c
+					cc.Value = f.g.fnByName[e.Aux]
+					return f.call(in, &cc, cond, typ)
+				}
+				return build(fv, rc)
+			}
+		}
 		if callee == nil {
 			e := u.mk("dyncall", "", typ, append([]*E{fv}, append(args, u.mk("site", f.g.fresh("c"), nil))...)...)
 			f.addEffect(Effect{Cond: rc, Kind: "call", Call: e, Pos: in.Pos(), Ins: in})
